@@ -230,7 +230,12 @@ static CO_ERR COCSdoUploadExpedited(CO_CSDO *csdo)
     uint8_t n;
 
     cmd = CO_GET_BYTE(csdo->Frm, 0u);
-    width = 4u - ((cmd >> 2u) & 0x03u);
+    if ((cmd & 0x01u) != 0u) {
+        width = 4u - ((cmd >> 2u) & 0x03u);
+    } else {
+        /* size is not indicated: the requested number of bytes */
+        width = (csdo->Tfer.Size < 4u) ? (uint8_t)csdo->Tfer.Size : 4u;
+    }
     if (width > 0u) {
         if (width > (uint8_t)csdo->Tfer.Size) {
             COCSdoAbort(csdo, CO_SDO_ERR_MEM);
@@ -463,6 +468,19 @@ static CO_ERR COCSdoFinishDownloadSegmented(CO_CSDO *csdo)
 * PROTECTED API FUNCTIONS
 ******************************************************************************/
 
+void COCSdoAbortAll(CO_CSDO *csdo)
+{
+    uint8_t n;
+
+    for (n = 0; n < (uint8_t)CO_CSDO_N; n++) {
+        if (csdo[n].State == CO_CSDO_STATE_BUSY) {
+            /* the application gets informed about the end of the transfer */
+            COCSdoAbort(&csdo[n], CO_SDO_ERR_TOS_STATE);
+            COCSdoTransferFinalize(&csdo[n]);
+        }
+    }
+}
+
 void COCSdoInit(CO_CSDO *csdo, struct CO_NODE_T *node)
 {
     uint8_t n;
@@ -524,6 +542,19 @@ CO_ERR COCSdoResponse(CO_CSDO *csdo)
 
     cmd = CO_GET_BYTE(csdo->Frm, 0u);
 
+    if (((cmd & 0xE0u) == 0x40u) || (cmd == 0x60u)) {
+        /* initiate response: it belongs to the running transfer, when it
+         * names the requested object entry (e.g. the late response to a
+         * request, which is already timed out, does not)
+         */
+        index = CO_GET_WORD(csdo->Frm, 1u);
+        sub   = CO_GET_BYTE(csdo->Frm, 3u);
+        if ((index != csdo->Tfer.Idx) ||
+            (sub   != csdo->Tfer.Sub)) {
+            return (result);
+        }
+    }
+
     if (cmd == 0x80u) {
         /* SDO abort protocol */
         index = CO_GET_WORD(csdo->Frm, 1u);
@@ -564,8 +595,8 @@ CO_ERR COCSdoResponse(CO_CSDO *csdo)
         result = COCSdoDownloadExpedited(csdo);
         return (result);
     } else if ((csdo->Tfer.Type == CO_CSDO_TRANSFER_UPLOAD) &&
-               ((cmd & 0xE3u) == 0x43u)) {
-        /* expedited upload response with indicated size */
+               ((cmd & 0xE2u) == 0x42u)) {
+        /* expedited upload response (size indicated or not) */
         result = COCSdoUploadExpedited(csdo);
         return (result);
     } else {
